@@ -35,6 +35,29 @@ pub fn run(prop: &str, req: &str, rep: &str, outfile: &str) {
         "C14" => oracle_c14(&reqs, &reps, &mut fails, &mut checked, &mut nontrivial),
         "C07" => oracle_c07(&reqs, &reps, &mut fails, &mut checked, &mut nontrivial),
         "C11" => oracle_c11(&reqs, &reps, &mut fails, &mut checked, &mut nontrivial),
+        "C16" => {
+            for (i, (q, r)) in reqs.iter().zip(reps.iter()).enumerate() {
+                checked += 1;
+                if r == "panic" {
+                    fail(&mut fails, i, q, r, "a read-only call panicked".into());
+                }
+                if q.starts_with("@readonly_close") {
+                    nontrivial.insert(format!("{i}"));
+                    if r == "no-package" {
+                        continue;
+                    }
+                    if !r.contains("writes=0 ") {
+                        fail(&mut fails, i, q, r, "a session that only opened and read the package issued writes to the medium".into());
+                    }
+                    if !r.ends_with("same=1") {
+                        fail(&mut fails, i, q, r, "the bytes of the medium changed in a read-only session".into());
+                    }
+                    if !r.starts_with("ok") {
+                        fail(&mut fails, i, q, r, "closing a read-only session failed".into());
+                    }
+                }
+            }
+        }
         "C01" | "C03" | "C04" | "C05" | "C06" | "C08" | "C10" | "C12" | "C20" => {
             let mut w = crate::walk::Walk::new();
             for (i, (q, r)) in reqs.iter().zip(reps.iter()).enumerate() {
